@@ -149,12 +149,21 @@ def run_case(args):
         argv += ["--blacklist", DOTTED[m].format(pkg)]
     for m in o["white"]:
         argv += ["--whitelist", DOTTED[m].format(pkg)]
-    before = snapshot(work)
-    rec = effects.Recorder(outputs=[out])
     sys.path.insert(0, os.path.join(work, "src"))
     old = os.getcwd()
     os.chdir(cwd)
     err = None
+    if o.get("prior"):
+        # the history: an earlier real run of the same command into the same directory (not judged here)
+        try:
+            with contextlib.redirect_stdout(io.StringIO()), contextlib.redirect_stderr(io.StringIO()):
+                cli.main([a for a in argv if a != "--dry-run"])
+        except (SystemExit, Exception):  # noqa
+            pass
+        for m in [m for m in sys.modules if m == pkg or m.startswith(pkg + ".")]:
+            sys.modules.pop(m, None)
+    before = snapshot(work)
+    rec = effects.Recorder(outputs=[out])
     try:
         with effects.recording(rec):
             try:
